@@ -845,8 +845,8 @@ class Oracle(object):
         inj = self.ob[on]['inj'].get(e['tid'])
         if inj is None:
             return 0
-        if hasattr(inj, 'extra'):
-            return inj.extra
+        if inj.calls:
+            return inj.calls[-1][1] - inj.calls[-1][0]      # what the model actually added
         return None
 
     # ..................................................................... C08
